@@ -24,6 +24,8 @@ SPEC = "linalg/EigenTrace.tla"
 CFG = "linalg/EigenTrace.cfg"
 CHUNK = 30000
 MUST = ("EVD.sym", "EVD.gen.real", "EVD.gen.complex")
+# input class of the defect repaired by commit aaa0add (status "fixed" in known_findings/C02.json: a
+# recurrence is reported as a violation under this key)
 OVERFLOW_KEY = ("evd(false): sort() computes `i as usize + 1` with i = -1 when an eigenvalue has to move to the front: "
                 "'attempt to add with overflow' panic in builds with overflow checks (dev / test profile)")
 
@@ -147,7 +149,6 @@ def run(ctx):
         "accuracy finer than about 2^-10 relative to ||A|| ('up to rounding error' is NOT decided)",
         "orders above 8; |entries| above 16 (cap 4 at order 8); non-integer data",
         "uniform rescaling of general (non-symmetric) input (the statement quantifies it for symmetric input only)",
-        "general inputs on which evd(false) panics in sort() (known finding) yield no observable and are not judged further",
         "badly balanced input beyond a power-of-two spread of 2^10 (f64) / 2^2 (f32): accuracy is promised relative to the norm "
         "of the matrix fed, which the integer contract cannot resolve any more",
     ]
